@@ -1078,6 +1078,8 @@ func (fc *FnCtx) fnConst(f *ssa.Function) Term {
 	name := "fn." + sanitize(fnKeyFull(f))
 	fc.TE.G.DeclareFun(name, nil, SInt)
 	fc.TE.G.AddAxiom(name+".nonnil", fmt.Sprintf("(assert (> %s 0))", name), name)
+	fc.TE.G.DeclareFun("fncode", []string{SInt}, SInt)
+	fc.TE.G.AddAxiom(name+".code", fmt.Sprintf("(assert (= (fncode %s) %d))", name, fnCode(fnIdentity(f))), name, "fncode")
 	return Term{name, SInt}
 }
 
